@@ -127,11 +127,38 @@ def standin_independence(tier, seed):
                 violations.append(dict(key=f"{kind}: personalised parameters depend on the order in which the individuals are listed",
                                        individuals=moved, order=order, listed_first=str(p1[moved[0]]), reordered=str(p5[moved[0]])))
         if tier != "quick" or kind == "logistic":
+            # workers finishing out of order must not shuffle the results: a cohort alternating long and one-visit histories,
+            # run with two workers (up to three times: completion order is a matter of timing)
+            dfa = cohort(seed + 23, n_ind=8, n_ft=3, min_visits=5, max_visits=5)
+            ida = list(dict.fromkeys(dfa["ID"]))
+            dfa = pd.concat([dfa[dfa["ID"] == sid] if k % 2 == 0 else dfa[dfa["ID"] == sid].iloc[:1] for k, sid in enumerate(ida)])
+            ia1, pa1 = personalize(model, dfa, seed)
+            for attempt in range(3):
+                ia2, pa2 = personalize(model, dfa, seed, n_jobs=2)
+                evals += 1
+                swapped = [sid for sid in ida if ia2 != ia1 or any(abs(x - y) > 0.05 + 0.01 * abs(x) for v1, v2 in zip(pa1[sid].values(), pa2[sid].values())
+                                                                   for x, y in zip(v1 if isinstance(v1, list) else [v1], v2 if isinstance(v2, list) else [v2]))]
+                if swapped:
+                    violations.append(dict(key=f"{kind}: with n_jobs=2 individuals receive parameters far from their n_jobs=1 result (another individual's?)",
+                                           individuals=swapped, one_worker=str(pa1[swapped[0]]), two_workers=str(pa2[swapped[0]])))
+                    break
+            distinct.add((kind, "jobs-order"))
             i3, p3 = personalize(model, df, seed, n_jobs=2)
             evals += 1
             distinct.add((kind, "jobs"))
-            if p3 != p1 or i3 != i1:
-                violations.append(dict(key=f"{kind}: scipy_minimize results differ between n_jobs=1 and n_jobs=2"))
+            if i3 != i1:
+                violations.append(dict(key=f"{kind}: with n_jobs=2 the personalisation keys {i3} are not the input identifiers in order"))
+            else:
+                def far2(a, b):
+                    fa = [x for v in a.values() for x in (v if isinstance(v, list) else [v])]
+                    fb = [x for v in b.values() for x in (v if isinstance(v, list) else [v])]
+                    return any(abs(x - y) > 0.05 + 0.01 * abs(x) for x, y in zip(fa, fb))
+                moved = [sid for sid in ids if far2(p1[sid], p3[sid])]
+                if moved:
+                    violations.append(dict(key=f"{kind}: with n_jobs=2 individuals receive parameters far from their n_jobs=1 result (another individual's?)",
+                                           individuals=moved, one_worker=str(p1[moved[0]]), two_workers=str(p3[moved[0]])))
+                elif p3 != p1:
+                    violations.append(dict(key=f"{kind}: scipy_minimize results differ between n_jobs=1 and n_jobs=2"))
         if violations:
             break
         samples.append(dict(kind=kind, ids=ids, perm=[int(p) for p in perm]))
